@@ -103,9 +103,11 @@ func describeFuncs(g starlark.StringDict) string {
 	return sb.String()
 }
 
+var stepLimit uint64 = 50000
+
 func execute(p *starlark.Program) (o obs) {
 	env := prog.NewEnv()
-	env.Thread.SetMaxExecutionSteps(50000)
+	env.Thread.SetMaxExecutionSteps(stepLimit)
 	defer func() {
 		if r := recover(); r != nil {
 			o.err = fmt.Sprintf("PANIC: %v", r)
@@ -311,12 +313,12 @@ func worker(c *fw.Ctx) *fw.Stats {
 		st.Levels = append(st.Levels, "feature")
 		st.Count("programs.feature", int64(len(features())))
 	}
-	maxLevel := map[string]int{"expr": 4, "plus": 4, "assign": 3, "control": 4, "scope": 2, "call": 1, "load": 3, "comp": 2, "fold": 1, "escape": 2}
+	maxLevel := map[string]int{"expr": 4, "plus": 4, "assign": 3, "control": 4, "scope": 2, "call": 1, "load": 3, "comp": 2, "fold": 1, "escape": 2, "scale": 2}
 	if c.Thorough() {
-		maxLevel = map[string]int{"expr": 5, "plus": 4, "assign": 3, "control": 5, "scope": 2, "call": 1, "load": 3, "comp": 3, "fold": 2, "escape": 2}
+		maxLevel = map[string]int{"expr": 5, "plus": 4, "assign": 3, "control": 5, "scope": 2, "call": 1, "load": 3, "comp": 3, "fold": 2, "escape": 2, "scale": 3}
 	}
 	for level := 1; level <= 6; level++ {
-		for _, pf := range prog.Profiles() {
+		for _, pf := range append(prog.Profiles(), prog.ScaleProfile()) {
 			if level > maxLevel[pf.Name] {
 				continue
 			}
@@ -333,6 +335,7 @@ func worker(c *fw.Ctx) *fw.Stats {
 					return false
 				}
 				src := prog.Render(p.Instantiate())
+				stepLimit = 50000 * uint64(p.ScaleBudget())
 				o := p.Need
 				if idx%2 == 1 {
 					o = all
@@ -392,7 +395,7 @@ func init() {
 	fw.Register(&fw.Prop{
 		ID:    "C17",
 		Level: "exploration",
-		Rule: "every program of the feature profile (also compiled under each of 18 file names: empty, dot segments, doubled slashes, labels, URLs, backslashes, NUL, non-UTF-8, 300 bytes; each constant kind, cells/free variables, keyword-only parameters, varargs/kwargs, docstrings, several loads, recursion flag, saturated position deltas) and of the C01 grammar profiles up to the completed size level; integer constants on both sides of every width boundary in both signs; after the comparison of the two executions the original and the reloaded program are written again (same bytes) and executed again, as is a program read from a *bytes.Buffer that was then overwritten and refilled: " +
+		Rule: "the scale profile (15 templates in which one table of the compiled form has n members, n on both sides of 2^7, 2^8, 2^14, thorough 2^16); every program of the feature profile (also compiled under each of 18 file names: empty, dot segments, doubled slashes, labels, URLs, backslashes, NUL, non-UTF-8, 300 bytes; each constant kind, cells/free variables, keyword-only parameters, varargs/kwargs, docstrings, several loads, recursion flag, saturated position deltas) and of the C01 grammar profiles up to the completed size level; integer constants on both sides of every width boundary in both signs; after the comparison of the two executions the original and the reloaded program are written again (same bytes) and executed again, as is a program read from a *bytes.Buffer that was then overwritten and refilled: " +
 			"compile, Write, CompiledProgram, Write again (bytes must be equal), execute both programs in identical fresh environments and compare probe trace, globals, error text, call stack positions, backtrace, function metadata, load list and step count; " +
 			"non-trivial = programs with a side effect, an error or at least one function value",
 		Run: run, Worker: worker, Replay: replay,
